@@ -373,7 +373,42 @@ func (g *flowGen) set() *hast.Stmt {
 		st.Op = r.Pick("=", "+=")
 	}
 	st.X = g.sc.Expr(r, t, r.Range(0, 2))
+	if t == hast.TStr {
+		// strings must not feed on strings: `$s = $s + $s`, `$a += $b` with `$b += $a` elsewhere grow
+		// exponentially in a loop (gigabytes within the fuel bound). At most one string variable on the right
+		// of `=`, none on the right of `+=`: growth stays linear.
+		strs := map[string]bool{}
+		for _, n := range g.sc.Vars[hast.TStr] {
+			strs[n] = true
+		}
+		limit := 1
+		if st.Op == "+=" {
+			limit = 0
+		}
+		for tries := 0; countVars(st.X, strs) > limit; tries++ {
+			if tries > 8 {
+				st.X = g.sc.strLit(r)
+				break
+			}
+			st.X = g.sc.Expr(r, t, r.Range(0, 1))
+		}
+	}
 	return st
+}
+
+// countVars counts the references to variables of the given set in an expression.
+func countVars(e *hast.Expr, set map[string]bool) int {
+	if e == nil {
+		return 0
+	}
+	n := 0
+	if e.K == hast.EVar && set[e.Text] {
+		n++
+	}
+	for _, a := range e.Args {
+		n += countVars(a, set)
+	}
+	return n
 }
 
 func (g *flowGen) command() *hast.Stmt {
